@@ -97,3 +97,9 @@ check('C10', 'refmodel', 'exploration', 'bitwise snapshot monitor around every s
       'Generated module trees with unsupported, skipped, frozen and partially frozen layers and low-precision dtypes: parameters, buffers and gradients outside the registered layers must be bitwise '
       'unchanged by step(), registered gradients keep shape/dtype/device/contiguity and stay finite, eval-mode passes leave K-FAC state unchanged, outputs and autograd gradients equal the twin model\'s.',
       'Default memory format; twin comparison restricted to float32/float64 parameters.', 'DESIGN.md §3 C10')
+
+check('C09', 'refmodel', 'fault_enumeration', 'fault enumeration over the checkpoint position: every step boundary of every generated run is a save/load point; resumed real run vs uninterrupted real run and vs the float64 reference',
+      'For every boundary c in 0..T: steps, scalar hyper-parameters and factors must be restored bitwise (single process and 2-4 simulated ranks under COMM/HYBRID/MEM-OPT), a valid state never raises, '
+      'a wrong layer count raises ValueError, the continued gradients equal the uninterrupted run when the live second-order data was fresh or is recomputed next, and always equal the reference that '
+      'refreshes at load; include_factors=False / compute_inverses=False variants.',
+      'A resume is a fresh preconditioner on the same model object; runs of 3-8 steps.', 'DESIGN.md §3 C09')
